@@ -27,7 +27,7 @@ def gen_ragged_fused(rng, tier):
     nd = rng.choice([1, 1, 2])
     shape, chunks = [], []
     for _ in range(nd):
-        nb = rng.randint(4, 7)
+        nb = rng.randint(4, 7 if nd == 1 else 5)
         base = rng.choice([1, 2])
         row = [base] * nb
         row[rng.randrange(nb)] = 3 - base
@@ -289,7 +289,12 @@ def execute(case, stats, log):
                 with warnings.catch_warnings():
                     warnings.simplefilter("ignore")
                     keys = list(H._flat(x.__dask_keys__()))
-                    sim.run(dict(x.__dask_graph__()), keys)
+                    g_ = dict(x.__dask_graph__())
+                    if len(g_) > 600:
+                        raise Invalid(f"graph of {name} too large for this check ({len(g_)} tasks)")
+                    sim.run(g_, keys)
+            except Invalid:
+                raise
             except Exception as e:  # noqa: BLE001
                 raise Invalid(f"dask graph of {name} does not execute: {type(e).__name__}: {str(e)[:200]}")
             ref[name] = {str(k): sim.values[k] for k in keys}
